@@ -33,7 +33,31 @@ func ZZC20Envelope() {
 		return
 	}
 	zzAssert(len(ct) == 3+L+len(m)+16, "C20 envelope: version + length prefix + RSA part + sealed text")
-	switch zzChoice("attack", 5) {
+	switch zzChoice("attack", 7) {
+	case 5, 6: // cut and paste between two sealed values of the same key
+		m2 := zzAnswers[zzChoice("msg2", len(zzAnswers))]
+		ct2, err2 := hybridEncrypt(zzPub(1), []byte(m2))
+		zzAssert(err2 == nil, "C20 envelope: second encryption succeeds")
+		if err2 != nil || m2 == m {
+			zzAssume(false)
+		}
+		cut := 3 + L // end of the RSA part
+		if zzChoice("cutat", 2) == 1 {
+			cut = zzInt("cut", 1, len(ct)-1)
+			if cut > len(ct2) {
+				zzAssume(false)
+			}
+		}
+		spliced := append(append([]byte{}, ct[:cut]...), ct2[cut:]...)
+		if bytes.Equal(spliced, ct) || bytes.Equal(spliced, ct2) {
+			zzAssume(false)
+		}
+		pt, err := hybridDecrypt(zzPriv(1), spliced)
+		if err == nil {
+			zzLog("spliced sealed values of " + m + " and " + m2 + " decrypt to " + string(pt))
+		}
+		zzAssert(err != nil, "C20 envelope: the head of one sealed value joined to the tail of another is rejected (an altered value never yields a different answer)")
+		zzReach("spliced")
 	case 0: // round trip
 		pt, err := hybridDecrypt(zzPriv(1), ct)
 		zzAssert(err == nil && string(pt) == m, "C20 envelope: decrypting with the matching key returns the original text")
